@@ -383,6 +383,18 @@ impl Prop for C02 {
     }
     fn witness(&self, _ctx: &Ctx, f: &crate::findings::Finding) -> Result<bool, Fail> {
         // witness {"kind":"k3_reject","source":…}: still fails iff the production parser rejects it in the way the signature describes
+        if f.witness["kind"].as_str() == Some("parse_reject") {
+            // still fails iff every listed source is rejected in strict mode (whatever the memo capacity)
+            let srcs: Vec<String> = f.witness["sources"].as_array().map(|a| a.iter().filter_map(|x| x.as_str().map(|s| s.to_string())).collect()).unwrap_or_default();
+            let rejected = srcs.iter().filter(|s| sv::raw_cfg(Grammar::Sv, s, false, None, false).is_none()).count();
+            return if rejected == srcs.len() && !srcs.is_empty() {
+                Ok(true)
+            } else if rejected == 0 {
+                Ok(false)
+            } else {
+                Err(Fail::new(format!("witness of {}: {} of {} listed sources are rejected", f.id, rejected, srcs.len()), json!({})))
+            };
+        }
         if f.witness["kind"].as_str() != Some("k3_reject") {
             return Ok(false);
         }
